@@ -14,10 +14,10 @@
 
    Level of abstraction.  Files are numbered by the harness; file 0 is the
    runtime.  A file carries its import records in source order (static or
-   import()), the cross-file dependencies of its parts, the names of its
-   exportable top-level symbols in InnerIndex order, the symbols used by its
-   live parts after ImportsToBind resolution, and (for entry points) the
-   resolved export targets.  Part dependencies come twice: those of all parts
+   import()), its parts (liveness, dependencies, raw symbol uses, top-level
+   declarations), its ImportsToBind table, the names of its top-level symbols
+   and its resolved exports, all as dumped from the real linker
+   (internal/linker/export_verif_c10.go).  Part dependencies come twice: those of all parts
    (markFileReachableForCodeSplitting walks every part, live or not) and those
    of the live parts (tree shaking follows only these).  Every non-runtime file is assumed to have side
    effects (so file liveness is reachability) and to be ESM (never wrapped).
@@ -34,21 +34,48 @@ Definition sym := (nat * nat)%type.  (* (declaring file, index into its f_names)
 Definition sym_eqb (a b : sym) : bool := (fst a =? fst b)%nat && (snd a =? snd b)%nat.
 Definition mems (x : sym) (l : list sym) : bool := existsb (sym_eqb x) l.
 
+(* a part of a file (js_ast.Part), reduced to what code splitting reads *)
+Record part := mkPart {
+  p_live : bool;                (* Part.IsLive (result of tree shaking) *)
+  p_deps : list nat;            (* Part.Dependencies: the files depended on *)
+  p_uses : list sym;            (* keys of Part.SymbolUses (raw refs) *)
+  p_declared : list nat         (* top-level DeclaredSymbols (inner indices) *)
+}.
 Record file := mkFile {
   f_recs : list (nat * bool);   (* import records in source order: (target, is import()) *)
-  f_deps : list nat;            (* cross-file dependencies of ALL parts (live or not): target files *)
-  f_ldeps : list nat;           (* cross-file dependencies of the LIVE parts only (subset of f_deps) *)
-  f_names : list bytes;         (* OriginalName of exportable top-level symbols, InnerIndex order *)
-  f_uses : list sym;            (* symbols used by live parts (resolved through ImportsToBind) *)
-  f_exports : list sym          (* resolved export targets (read only if the file is an entry point) *)
+  f_parts : list part;
+  f_bind : list (sym * sym);    (* Meta.ImportsToBind: import ref -> the symbol it was bound to *)
+  f_names : list (nat * bytes); (* OriginalName of the top-level symbols, by inner index *)
+  f_rawexports : list sym       (* ResolvedExports (SourceIndex, Ref) in SortedAndFilteredExportAliases order *)
 }.
+Definition live_parts (fl : file) : list part := filter p_live (f_parts fl).
+(* cross-file dependencies of ALL parts (markFileReachableForCodeSplitting walks every part) *)
+Definition f_deps (fl : file) : list nat := flat_map p_deps (f_parts fl).
+(* ... and of the LIVE parts only (tree shaking follows only these) *)
+Definition f_ldeps (fl : file) : list nat := flat_map p_deps (live_parts fl).
+Fixpoint lookup_bind (s : sym) (l : list (sym * sym)) : option sym :=
+  match l with
+  | [] => None
+  | (k, t) :: r => if sym_eqb s k then Some t else lookup_bind s r
+  end.
+(* "if importData, ok := repr.Meta.ImportsToBind[ref]; ok { ref = importData.Ref }" *)
+Definition resolve_in (fl : file) (s : sym) : sym :=
+  match lookup_bind s (f_bind fl) with Some t => t | None => s end.
+(* symbols used by the live parts, after ImportsToBind of the using file *)
+Definition f_uses (fl : file) : list sym := map (resolve_in fl) (flat_map p_uses (live_parts fl)).
+(* top-level symbols declared by live parts: these get a Symbol.ChunkIndex *)
+Definition declared_live (fl : file) : list nat := flat_map p_declared (live_parts fl).
 Record graph := mkGraph {
   g_files : list file;
   g_user : list nat;            (* user-specified entry points in order *)
   g_minify : bool               (* MinifyIdentifiers *)
 }.
-Definition nofile := mkFile [] [] [] [] [] [].
+Definition nofile := mkFile [] [] [] [] [].
 Definition getf (g : graph) (f : nat) : file := nth f (g_files g) nofile.
+(* export targets of an entry point: the bound symbol is looked up in the table of the
+   file that resolved the export (c.graph.Files[export.SourceIndex]...ImportsToBind) *)
+Definition entry_exports (g : graph) (e : nat) : list sym :=
+  map (fun s => resolve_in (getf g (fst s)) s) (f_rawexports (getf g e)).
 Definition nfiles (g : graph) : nat := length (g_files g).
 
 (* ---- findReachableFiles: DFS post-order, runtime first, then the entry points ---- *)
@@ -211,7 +238,7 @@ Definition chunk_of_file (a : analysis) (f : nat) : option nat :=
   if is_live a f then find_chunk (file_bits a f) (a_chunks a) 0 else None.
 (* Symbol.ChunkIndex: valid for declared top-level symbols of live files *)
 Definition chunk_of_sym (g : graph) (a : analysis) (s : sym) : option nat :=
-  if (snd s <? length (f_names (getf g (fst s))))%nat then chunk_of_file a (fst s) else None.
+  if memn (snd s) (declared_live (getf g (fst s))) then chunk_of_file a (fst s) else None.
 (* File.EntryPointChunkIndex *)
 Fixpoint entry_chunk_index (e : nat) (l : list chunk) (i : nat) : option nat :=
   match l with
@@ -232,22 +259,32 @@ Fixpoint insert_by (g : graph) (a : analysis) (f : nat) (l : list nat) : list na
   | [] => [f]
   | x :: r => if key_ltb (order_key g a f) (order_key g a x) then f :: l else x :: insert_by g a f r
   end.
-Fixpoint ovisit (fuel : nat) (g : graph) (a : analysis) (c : chunk) (f : nat) (st : list nat * list nat)
-  : list nat * list nat :=
+(* generic depth-first post-order walk (visited set, output list) *)
+Fixpoint gvisit (fuel : nat) (succ : nat -> list nat) (x : nat) (st : list nat * list nat) : list nat * list nat :=
   match fuel with
   | O => st
   | S k =>
     let '(vis, out) := st in
-    if memn f vis then st else
-    let in_chunk := is_live a f && Equals (c_bits c) (file_bits a f) in
-    let follow := filter (fun r => (negb (snd r) || in_chunk) && negb (is_external_dynamic (a_entries a) f r))
-                         (f_recs (getf g f)) in
-    let '(vis', out') := fold_left (fun s r => ovisit k g a c (fst r) s) follow (f :: vis, out) in
-    (vis', if in_chunk then out' ++ [f] else out')
+    if memn x vis then st else
+    let '(vis', out') := fold_left (fun s y => gvisit k succ y s) (succ x) (x :: vis, out) in
+    (vis', out' ++ [x])
   end.
+Definition postorder (fuel : nat) (succ : nat -> list nat) (roots : list nat) : list nat :=
+  snd (fold_left (fun s x => gvisit fuel succ x s) roots ([], [])).
+
+(* isFileInThisChunk (for a live part) *)
+Definition in_chunk (a : analysis) (c : chunk) (f : nat) : bool :=
+  is_live a f && Equals (c_bits c) (file_bits a f).
+(* the files visit() recurses into from f: import statements always, require()/import() only
+   from parts in this chunk, never an import() of another entry point *)
+Definition osucc (g : graph) (a : analysis) (c : chunk) (f : nat) : list nat :=
+  map fst (filter (fun r => (negb (snd r) || in_chunk a c f) && negb (is_external_dynamic (a_entries a) f r))
+                  (f_recs (getf g f))).
+(* visit(runtime), then the files of the chunk sorted by (distance, stable index); a file is
+   emitted after everything it imports, and only if it belongs to this chunk *)
 Definition chunk_order (g : graph) (a : analysis) (c : chunk) : list nat :=
   let sorted := fold_right (insert_by g a) [] (c_files c) in
-  snd (fold_left (fun s f => ovisit (S (nfiles g)) g a c f s) (0%nat :: sorted) ([], [])).
+  filter (in_chunk a c) (postorder (S (nfiles g)) (osucc g a c) (0%nat :: sorted)).
 
 (* ---- computeCrossChunkDependencies ---- *)
 Definition dedupe_syms (l : list sym) : list sym :=
@@ -256,7 +293,7 @@ Definition dedupe_syms (l : list sym) : list sym :=
 (* chunkMeta.imports of chunk number ci *)
 Definition chunk_uses (g : graph) (c : chunk) : list sym :=
   dedupe_syms (flat_map (fun f => f_uses (getf g f)) (c_files c)
-               ++ match c_entry c with Some (_, e) => f_exports (getf g e) | None => [] end).
+               ++ match c_entry c with Some (_, e) => entry_exports g e | None => [] end).
 
 (* importsFromOtherChunks as (other chunk, refs); entry chunks also list every
    other chunk that has their bit, possibly with no items *)
@@ -287,7 +324,12 @@ Definition chunk_exports (a : analysis) (raw : list (list (nat * list sym))) (oi
   fold_right (insert_sym a) []
     (dedupe_syms (flat_map (fun imps => flat_map (fun p => if (fst p =? oi)%nat then snd p else []) imps) raw)).
 
-Definition sym_name (g : graph) (s : sym) : bytes := nth (snd s) (f_names (getf g (fst s))) [].
+Fixpoint lookup_name (i : nat) (l : list (nat * bytes)) : bytes :=
+  match l with
+  | [] => []
+  | (k, n) :: r => if (i =? k)%nat then n else lookup_name i r
+  end.
+Definition sym_name (g : graph) (s : sym) : bytes := lookup_name (snd s) (f_names (getf g (fst s))).
 
 (* exportsToOtherChunks: ref -> alias *)
 Definition export_aliases (g : graph) (ex : list sym) : option (list (sym * bytes)) :=
@@ -377,5 +419,5 @@ Definition split (g : graph) : option result :=
 Definition deps_coverb (g : graph) : bool :=
   forallb (fun f =>
     forallb (fun s : sym => (fst s =? f)%nat || memn (fst s) (f_deps (getf g f))) (f_uses (getf g f)) &&
-    forallb (fun s : sym => (fst s =? f)%nat || memn (fst s) (f_deps (getf g f))) (f_exports (getf g f)))
+    forallb (fun s : sym => (fst s =? f)%nat || memn (fst s) (f_deps (getf g f))) (entry_exports g f))
     (seq 0 (nfiles g)).
